@@ -663,7 +663,8 @@ func runReplayCmd(args []string) int {
 		fmt.Println("usage: gosym replay <file>")
 		return 2
 	}
-	b, err := os.ReadFile(fs.Arg(0))
+	rpath, _ := filepath.Abs(fs.Arg(0))
+	b, err := os.ReadFile(rpath)
 	if err != nil {
 		fmt.Println(err)
 		return 2
@@ -682,7 +683,7 @@ func runReplayCmd(args []string) int {
 	}
 	cmd := exec.Command(bin, "-test.run", "^TestVerifReplay$", "-test.v")
 	cmd.Dir = filepath.Join(*repo, "internal")
-	cmd.Env = append(os.Environ(), "VERIF_MODEL="+fs.Arg(0), "VERIF_HARNESS="+rf.Harness)
+	cmd.Env = append(os.Environ(), "VERIF_MODEL="+rpath, "VERIF_HARNESS="+rf.Harness)
 	out, _ := cmd.CombinedOutput()
 	fmt.Printf("replay of %s (%s / %s)\nmodel=%v chooses=%v notes=%v\n--- native output ---\n%s\n", fs.Arg(0), rf.Harness, rf.AssertID, rf.Model, rf.Chooses, rf.Notes, out)
 	if strings.Contains(string(out), "VERIF-ASSERT-FAIL") || strings.Contains(string(out), "panic:") {
